@@ -37,6 +37,14 @@ def gtextN(s: str) -> str:
 # character classes over all code points
 
 
+def impl_split_lines(core):
+    """the line decomposition has_ignore_comment iterates over: core.split_lines; a tree without that helper (before
+    repair 8814bf1, or a regression that drops it) iterates source.splitlines(keepends=True) -- the check then runs
+    against that and reports the difference with a failing input instead of crashing"""
+    f = getattr(core, "split_lines", None)
+    return f if callable(f) else (lambda src: src.splitlines(keepends=True))
+
+
 def char_classes(core=None):
     import re
     sp = re.compile(r"\s")
@@ -46,7 +54,8 @@ def char_classes(core=None):
         return spaces, breaks
     # the characters at which the REAL core.split_lines breaks a line, over all code points; and CPython's own
     # universal-newline reader (what the tokenizer is fed) as the reference
-    eols = [c for c in range(0x110000) if len(core.split_lines("a" + chr(c) + "b")) == 2]
+    split = impl_split_lines(core)
+    eols = [c for c in range(0x110000) if len(split("a" + chr(c) + "b")) == 2]
     ref = [c for c in range(0x110000)
            if len(list(iter(io.StringIO("a" + chr(c) + "b", newline="").readline, ""))) == 2]
     return spaces, breaks, eols, ref
@@ -166,7 +175,7 @@ def ranges_for(src: str, rnd, exhaustive: bool):
 
 def impl_case(mods, src: str, ranges, with_skip: bool):
     core = mods["core"]
-    lines = core.split_lines(src)
+    lines = impl_split_lines(core)(src)
     verdicts, pos = [], 0
     for ln in lines:
         verdicts.append(bool(core.has_ignore_comment(src, core.Range(pos, pos + len(ln)))))
@@ -243,6 +252,9 @@ TRIGGERS = {
     "implicit_else": "def f(x):\n    if x > 10:\n        x += 1\n        x *= 12\n        print(x > 30)\n        return 100 - sum(x, 2, 3)\n\n    return 13\n\nprint(f(3))\n",
     "abstraction": "def f(x):\n    for i in x:\n        if i > 3:\n            if i < 10:\n                print(i)\n                return True\n    return False\n\nprint(f([1, 5]))\n",
     "assign_return": "def f():\n    s = list()\n    return s\n\nprint(f())\n",
+    # a pure insertion (empty Range) in the MIDDLE of an annotated line: breakout_common_code_in_ifs moves the common
+    # statement behind the if, i.e. between a blocking last statement and its trailing comment (seed C20-c)
+    "common_tail_blocking": "def parse(kind, text):\n    if kind == 'int':\n        value = int(text)\n        checked = True\n    elif kind == 'float':\n        value = float(text)\n        checked = True\n    else:\n        raise ValueError(kind)\n    return value, checked\n\nprint(parse('int', '3'))\n",
     "overused": "def f():\n    return ['some long constant string', 'some long constant string', 'some long constant string', 'some long constant string', 'some long constant string']\n\nprint(f())\n",
 }
 COMMENTS = ["  # pyrefact: ignore", "  #pyrefact:ignore", "\t# pyrefact: ignore  "]
